@@ -94,7 +94,12 @@ type Stats struct {
 	CrossChecked  int // obligations re-discharged by the second solver
 	CrossUnknown  int // second solver timed out / unknown (recorded, not a failure)
 	CrossDisagree int // second solver found a model where the first said unsat (machinery failure)
+	CrossSkipped  int // obligations not re-checked because this worker's second-solver time budget was used up
 }
+
+// crossBudget bounds the second-solver time per worker and harness (z3 4.8.12 needs minutes and gigabytes on
+// some ite-heavy queries that z3 5.1.0 decides in seconds).
+const crossBudget = 180 * time.Second
 
 func newStats() *Stats {
 	return &Stats{PathEnds: map[string]int{}, Funcs: map[string]int{}, Stubs: map[string]int{}, Assumes: map[string]int{},
@@ -116,6 +121,7 @@ func (s *Stats) merge(o *Stats) {
 	s.CrossChecked += o.CrossChecked
 	s.CrossUnknown += o.CrossUnknown
 	s.CrossDisagree += o.CrossDisagree
+	s.CrossSkipped += o.CrossSkipped
 	mm := func(a, b map[string]int) {
 		for k, v := range b {
 			a[k] += v
@@ -159,6 +165,9 @@ type Machine struct {
 	tt      *TermTable
 	solver  *Solver
 	solver2 *Solver
+	// crossSpent is the wall time this worker has spent in the second solver; once it exceeds crossBudget
+	// the remaining obligations are decided by the primary solver only (counted in Stats.CrossSkipped).
+	crossSpent time.Duration
 	cfg     *Config
 	stats   *Stats
 	globals map[*ssa.Global]*value
@@ -792,8 +801,22 @@ func (m *Machine) checkViolation(bad *Term, kind, label, detail string) (anyViol
 			return true
 		}
 		// discharged by the primary solver: optionally re-discharge with a second back end
-		if m.solver2 != nil {
-			switch m.solver2.Check(m.pc, []*Term{bad, extra}, nil, nil) {
+		if m.solver2 != nil && m.crossSpent > crossBudget {
+			m.stats.CrossSkipped++
+		} else if m.solver2 != nil {
+			t0 := time.Now()
+			// z3 4.8.12 does not always honour :timeout inside one incremental query: a watchdog kills the
+			// process after twice the per-query limit; Check then reports unknown and restarts the solver, and
+			// this worker stops cross-checking for the rest of the harness.
+			proc, hardKilled := m.solver2.cmd.Process, false
+			wd := time.AfterFunc(time.Duration(2*m.solver2.timeout+10000)*time.Millisecond, func() { hardKilled = true; proc.Kill() })
+			r2 := m.solver2.Check(m.pc, []*Term{bad, extra}, nil, nil)
+			wd.Stop()
+			m.crossSpent += time.Since(t0)
+			if hardKilled {
+				m.crossSpent += crossBudget
+			}
+			switch r2 {
 			case Unsat:
 				m.stats.CrossChecked++
 			case Unknown:
